@@ -30,10 +30,12 @@ func getCachedPath(expr string) []string {
 	pathCache.RUnlock()
 
 	// Not in cache, compute it
+	verifPoint(vpPathMiss, 0, 0)
 	parts := splitPathImpl(expr)
 
 	// Cache if under limit
 	if len(pathCache.m) < pathCacheLimit {
+		verifPoint(vpPathStore, 0, 0)
 		pathCache.Lock()
 		pathCache.m[expr] = parts
 		pathCache.Unlock()
@@ -83,6 +85,7 @@ func (s *Stack) Copy() *Stack {
 func (s *Stack) Push(m map[string]any) {
 	if m == nil {
 		m = mapPool.Get().(map[string]any)
+		verifPoint(vpPoolGet, len(m), 0)
 	}
 	s.stack = append(s.stack, m)
 }
@@ -101,6 +104,7 @@ func (s *Stack) Pop() {
 		for k := range topMap {
 			delete(topMap, k)
 		}
+		verifPoint(vpPoolPut, len(topMap), 0)
 		mapPool.Put(topMap)
 	}
 	s.stack = s.stack[:topIdx]
